@@ -165,6 +165,45 @@ def run(ctx):
         else:
             ctx.bad(R_phase, "rebuild_with_files|build", rw.where, "build result discarded or build not called", "target may not exist while Ok is returned")
 
+    # re-add loop: every extracted file is added, under its own name and bytes
+    R_readd = ctx.rule("C07.every-extracted-file-readded", "rebuild_with_files adds each (data, meta) pair exactly once with meta.name and data on every branch; no skip inside the loop", floor=1)
+    if rw is not None and rw.hir:
+        for lp in hirq.find(rw.hir["body"], "for"):
+            binds = hirq.pat_binds(lp["pat"])
+            if len(binds) < 2:
+                continue
+            dname, mname = binds[0], binds[1]
+            skips = [x for x in hirq.walk(lp["body"], into_closures=False) if x.get("k") in ("continue", "break")]
+            adds = [c for c in hirq.walk(lp["body"]) if c.get("k") == "mcall" and re.match(r"add_file", c["m"])]
+            probs = []
+            if skips:
+                probs.append("loop contains `%s` at line %d" % (skips[0]["k"], skips[0]["ln"]))
+            if not adds:
+                probs.append("no add_file* call in the loop")
+            for a in adds:
+                args = [hirq.render(x) for x in a["args"]]
+                if not any(args[0] == dname for _ in [0]) or not any(("%s.name" % mname) in x for x in args[:2]):
+                    probs.append("add call at line %d passes (%s) instead of (%s, &%s.name, ..)" % (a["ln"], ", ".join(args[:2]), dname, mname))
+            # every branch of an if/else chain inside the loop must add
+            for n in hirq.find(lp["body"], "if"):
+                arms = [n["then"]] + ([n["else"]] if n.get("else") is not None else [])
+                if n.get("else") is None or any(not any(c.get("k") == "mcall" and re.match(r"add_file", c["m"]) for c in hirq.walk(arm)) for arm in arms):
+                    if any(c.get("k") == "mcall" and re.match(r"add_file", c["m"]) for c in hirq.walk(n)):
+                        probs.append("a branch of the `if %s` at line %d adds nothing" % (hirq.render(n["c"])[:40], n["ln"]))
+            if probs:
+                ctx.bad(R_readd, "rebuild_with_files|re-add", "%s:%d" % (rw.file, lp["ln"]), "; ".join(probs[:3]), "an extracted file is left out of (or mis-named / mis-filled in) the rebuilt archive")
+            else:
+                ctx.ok(R_readd, {"adds": len(adds), "loop_line": lp["ln"]})
+    sig = mpq.fns.get(F + "is_signature_file")
+    if sig is not None and sig.hir:
+        lits = sorted({hirq.lit_str(x) or x["v"].get("str") for x in hirq.walk(sig.hir["body"]) if x.get("k") == "lit" and "str" in x["v"]})
+        pl = sorted(set(re.findall(r'"str": "([^"]+)"', __import__("json").dumps(sig.hir))))
+        names = sorted(set(lits) | set(pl))
+        if names and all(n in ("(signature)", "(strong signature)") for n in names):
+            ctx.ok(R_skip, {"fn": "is_signature_file", "names": names})
+        else:
+            ctx.bad(R_skip, "is_signature_file|names", sig.where, "treats %s as signature files" % names, "skip_signatures would exclude files that are not signatures")
+
     # verify compares
     vr = mpq.fns.get(F + "verify_rebuild")
     if vr is not None and vr.hir:
